@@ -311,6 +311,45 @@ def tlc_generate(module, cfg, world, family, extra=(), timeout=1500):
 
 
 # ---------------------------------------------------------------------------------------------- corpus execution
+def second_process(scn_path, trace, rundir, i):
+    """C08: the same scenarios in a second operating-system process with another scheduler / collector / database setting;
+    its observations become the `ideal` side of every record of the first process' trace."""
+    p2 = os.path.join(rundir, "scnB%d.ndjson" % i)
+    with open(p2, "w") as f:
+        for k, line in enumerate(open(scn_path)):
+            s = json.loads(line)
+            if k % 2 == 0:
+                s["backend"] = "leveldb"
+            f.write(json.dumps(s) + "\n")
+    trace2 = os.path.join(rundir, "traceB%d.ndjson" % i)
+    env = dict(os.environ, GOMAXPROCS="1", GOGC="30")
+    rc, out = sh([os.path.join(WORK, "bin/driver"), "-scenarios", p2, "-out", trace2, "-work", os.path.join(rundir, "dbB%d" % i)], timeout=3000, env=env)
+    if rc != 0:
+        return "second driver process rc=%d: %s" % (rc, out[-1500:])
+    other = {}
+    for line in open(trace2):
+        r = json.loads(line)
+        other[(r["sc"], r["i"])] = r
+    tmp = trace + ".joined"
+    with open(tmp, "w") as f:
+        for line in open(trace):
+            r = json.loads(line)
+            if "obs" in r:
+                o = other.get((r["sc"], r["i"]))
+                if o is None or o["kind"] != r["kind"] or "obs" not in o:
+                    ideal = {k: "" if isinstance(v, str) else 0 for k, v in r["obs"].items()}
+                    ideal["panic"] = "the second process has no such record (%s)" % (o["kind"] if o else "trace ended")
+                else:
+                    ideal = o["obs"]
+                    ideal["panic"] = o["panic"]
+                r["obs"]["panic"] = r["panic"]
+                r["ideal"] = ideal
+            f.write(json.dumps(r) + "\n")
+    os.rename(tmp, trace)
+    os.remove(trace2)
+    return None
+
+
 def run_corpus(scenarios, tag, shards=None):
     """Runs scenarios through the driver and validates the traces with TLC. Returns aggregated results."""
     if not scenarios:
@@ -337,6 +376,10 @@ def run_corpus(scenarios, tag, shards=None):
         rc, out = sh([os.path.join(WORK, "bin/driver"), "-scenarios", p, "-out", trace, "-work", os.path.join(rundir, "db%d" % i), "-stats", stats], timeout=3000)
         if rc != 0:
             return {"error": "driver rc=%d: %s" % (rc, out[-1500:])}
+        if tag == "determinism":
+            err = second_process(p, trace, rundir, i)
+            if err:
+                return {"error": err}
         r = run_tlc_trace(trace, os.path.join(rundir, "meta%d" % i))
         r["stats"] = json.load(open(stats)) if os.path.exists(stats) else {}
         r["trace"] = trace
